@@ -244,7 +244,14 @@ func (h *Handler) saltAuthToken(req *http.Request, remote string) (updatedReq *h
 
 	creds := auth.NewCredentials()
 	creds.LoadTokensFromHTTPRequest(updatedReq)
-	if ct, _, err := mime.ParseMediaType(updatedReq.Header.Get("Content-Type")); err == nil && ct == "application/x-www-form-urlencoded" && updatedReq.Body != nil {
+	// The media type is whatever precedes the parameters, even
+	// if the parameters are malformed (that is how the receiving
+	// side decides whether to read the body as a form).
+	ct := updatedReq.Header.Get("Content-Type")
+	if i := strings.IndexAny(ct, ";,"); i >= 0 {
+		ct = ct[:i]
+	}
+	if strings.ToLower(strings.TrimSpace(ct)) == "application/x-www-form-urlencoded" && updatedReq.Body != nil {
 		// Look for api_token in the form body even if a token
 		// was found elsewhere, whatever the request method.
 		buf, err := ioutil.ReadAll(http.MaxBytesReader(nil, updatedReq.Body, 1<<28)) // 256MiB. TODO: use MaxRequestSize from discovery doc or config.
